@@ -594,6 +594,7 @@ func TestC18Child(t *testing.T) {
 		st := nd.S.byName(site)
 		if st != nil {
 			st.at.Store(int32(at))
+			st.times.Store(int32(EnvInt("C18_TIMES", 1)))
 		}
 		var hung atomic.Int32
 		feed := func(k int) {
@@ -694,9 +695,12 @@ func judgeChild(o *childObs) {
 	}
 }
 
-func runChild(site string, at int) *childObs {
+func runChild(site string, at int, times ...int) *childObs {
 	cmd := exec.Command(os.Args[0], "-test.run", "^TestC18Child$", "-test.v")
 	cmd.Env = append(os.Environ(), "C18_SITE="+site, fmt.Sprintf("C18_AT=%d", at))
+	if len(times) > 0 {
+		cmd.Env = append(cmd.Env, fmt.Sprintf("C18_TIMES=%d", times[0]))
+	}
 	out, err := cmd.CombinedOutput()
 	o := &childObs{Site: site, At: at, ResumeNs: -1}
 	found := false
@@ -808,6 +812,17 @@ func TestC18(t *testing.T) {
 			if site == "pipeline" && at == 3 {
 				samples = append(samples, o)
 			}
+		}
+	}
+	for _, site := range []string{"logprovider", "recoverable", "getter"} {
+		// the same flow panics six times in a row (every call of its provider from the 3rd to the 8th): each panic is
+		// contained, and the flow resumes and keeps ticking afterwards
+		o := runChild(site, 3, 6)
+		evals++
+		keys = append(keys, fmt.Sprintf("panic/%s/3x6", site))
+		dist["panic: "+strings.SplitN(o.Verdict, ":", 2)[0]]++
+		if o.Verdict != "ok" {
+			violations = append(violations, o)
 		}
 	}
 	{
